@@ -1,10 +1,15 @@
 (** * Monitors: the properties as decidable checks over (history, trace)
 
-    The same definitions are (a) what the theorems of [Properties/] talk about on the
-    model's traces and (b) extracted and evaluated on the traces of the real crate.
+    The same definitions are (a) what theorems of [Properties/] say about the model's
+    traces and (b) extracted and evaluated on the traces of the real crate.
 
-    A trace is the list of per-operation event lists, aligned with the history's ops. *)
+    A trace is the list of per-operation event lists, aligned with the history's ops.
+    The tracker [trk] is what an outside observer can reconstruct from history + trace:
+    who is held, which handle points to which slot, which child sits in which slot,
+    which children have a wake-up pending ("armed"). *)
 From FB Require Import Base Syntax.
+From RecordUpdate Require Import RecordSet.
+Import RecordSetNotations.
 
 Definition trace := list (op * list event).
 
@@ -32,16 +37,19 @@ Definition tok_eqb (a b : tok) : bool :=
   end.
 
 Definition memT (x : tok) (l : list tok) : bool := existsb (tok_eqb x) l.
-Fixpoint removeT (x : tok) (l : list tok) : list tok :=
-  match l with
-  | [] => []
-  | y :: t => if tok_eqb x y then t else y :: removeT x t
-  end.
 Definition countT (x : tok) (l : list tok) : nat := length (filter (tok_eqb x) l).
 Definition countN (x : N) (l : list N) : nat := length (filter (N.eqb x) l).
 
-Definition tok_child (t : tok) : option N :=
-  match t with TOut c | TErr c | TItem c _ => Some c | _ => None end.
+Fixpoint lookupN {A} (c : N) (l : list (N * A)) : option A :=
+  match l with
+  | [] => None
+  | (c', v) :: t => if N.eqb c c' then Some v else lookupN c t
+  end.
+Fixpoint dropN {A} (c : N) (l : list (N * A)) : list (N * A) :=
+  match l with
+  | [] => []
+  | (c', v) :: t => if N.eqb c c' then dropN c t else (c', v) :: dropN c t
+  end.
 
 Definition is_bounded (t : ctype) : bool :=
   match t with TFUB | TMB | TFOB => true | _ => false end.
@@ -57,9 +65,14 @@ Definition is_stream_coll (t : ctype) : bool :=
   match t with TFUB | TFU | TFOB | TFO => true | _ => false end.
 Definition is_try (t : ctype) : bool :=
   match t with TTBU | TTBO | TTJA => true | _ => false end.
+Definition is_fec (t : ctype) : bool := match t with TFEC => true | _ => false end.
+Definition is_unbounded (t : ctype) : bool :=
+  match t with TFU | TMU | TFO => true | _ => false end.
 
-(** ** the tracker: what an observer of the trace knows *)
-Record trk := {
+Inductive mhandle := MT (w : nat) | MC (b s : nat).
+
+(** ** the tracker *)
+Record trk := mkTrk {
   k_type : ctype;
   k_par : cparams;
   k_inits : list N;
@@ -68,159 +81,243 @@ Record trk := {
   k_accepted : list N;           (* accepted children, acceptance order *)
   k_running : list N;            (* accepted, no final answer yet *)
   k_final : list (N * res);      (* final answers given *)
-  k_held : list N;               (* accepted, output not yet yielded (merges: = running) *)
+  k_held : list N;               (* accepted, output not yet yielded (merges, FEC: = running) *)
   k_deque : list N;              (* ordered types: abstract queue order of held children *)
   k_yielded : list tok;          (* tokens handed to the caller *)
   k_produced : list tok;         (* tokens produced by children / upstream *)
   k_cdrops : list N;             (* child drop events *)
+  k_fin_undropped : list N;      (* children that finished and have not been dropped yet *)
   k_odrops : list tok;           (* token drop events *)
   k_refused : list N;
   k_pulled : nat;                (* upstream items pulled *)
   k_up_ended : bool;
-  k_up_after_end : bool;
+  k_ups : list upstep;           (* upstream script not yet consumed *)
+  (* replay *)
+  k_scripts : list (N * script); (* remaining script of every live child *)
+  k_handles : list (option mhandle);
+  k_occ : list (nat * nat * N);  (* slot (b, s) -> child last polled there and not yet dropped *)
+  k_armed : list (N * nat);      (* children with a wake-up pending -> value of [k_pollno] when it was raised *)
+  k_dequeued : option N;         (* the child whose slot a pop has just handed out (seen through an exit injection) *)
+  k_slot_credit : list (nat * nat); (* wake-ups of slots whose occupant is not known yet *)
+  k_pollno : nat;                (* collection polls so far that could make progress *)
+  k_last_waker : option nat;     (* task waker of the most recent poll *)
+  k_last_pending : bool;         (* ... and whether it returned Pending *)
+  k_twake_since : bool;          (* that waker was invoked since that poll began *)
+  k_max_held : nat;
+  k_wakes : nat;                 (* child-waker invocations (wake / wake_by_ref on a slot) *)
+  k_stale_wakes : nat;           (* ... of which on slots with no live occupant *)
+  k_nblocks : nat;
+  k_polls_total : nat;
+  k_items_total : nat;
+  k_allocs_after : nat;          (* allocator calls after construction *)
+  k_quiet_run : nat;             (* consecutive quiet polls *)
   (* per op *)
-  k_op_polls : nat;              (* child polls in this op *)
-  k_op_finals : nat;             (* children that finished in this op *)
+  k_op_polls : nat;
+  k_op_finals : nat;
   k_op_pulled : nat;
   k_op_twakes : nat;
-  k_op_crate_twakes : nat;
-  k_op_up_last_pend : bool;      (* upstream was polled in this op and its last answer was Pending *)
+  k_op_wakes : nat;              (* child-waker invocations in this op *)
+  k_op_newly_armed : bool;       (* a held child became armed in this op through a waker *)
+  k_op_all_pending : bool;
+  k_op_up_last_pend : bool;
   k_op_up_polled : bool;
-  k_pending_item : option tok;   (* merges: an item answered by a source, not yet returned *)
-  k_pending_err : option tok;    (* try adapters: an upstream error not yet returned *)
+  k_pending_item : option tok;
+  k_pending_err : option tok;
 }.
+
+#[export] Instance etaTrk : Settable _ := settable! mkTrk
+  <k_type; k_par; k_inits; k_built; k_dropped; k_accepted; k_running; k_final; k_held; k_deque;
+   k_yielded; k_produced; k_cdrops; k_fin_undropped; k_odrops; k_refused; k_pulled; k_up_ended; k_ups;
+   k_scripts; k_handles; k_occ; k_armed; k_dequeued; k_slot_credit; k_pollno; k_last_waker; k_last_pending; k_twake_since;
+   k_max_held; k_wakes; k_stale_wakes; k_nblocks; k_polls_total; k_items_total; k_allocs_after; k_quiet_run;
+   k_op_polls; k_op_finals; k_op_pulled; k_op_twakes; k_op_wakes; k_op_newly_armed; k_op_all_pending;
+   k_op_up_last_pend; k_op_up_polled; k_pending_item; k_pending_err>.
 
 Definition trk_init : trk :=
   {| k_type := TFUB; k_par := {| p_cap := 0; p_new := false; p_iter := false; p_seed := None; p_hlo := 0; p_hhi := None |};
      k_inits := []; k_built := false; k_dropped := false;
      k_accepted := []; k_running := []; k_final := []; k_held := []; k_deque := [];
-     k_yielded := []; k_produced := []; k_cdrops := []; k_odrops := []; k_refused := [];
-     k_pulled := 0; k_up_ended := false; k_up_after_end := false;
-     k_op_polls := 0; k_op_finals := 0; k_op_pulled := 0; k_op_twakes := 0; k_op_crate_twakes := 0;
+     k_yielded := []; k_produced := []; k_cdrops := []; k_fin_undropped := []; k_odrops := []; k_refused := [];
+     k_pulled := 0; k_up_ended := false; k_ups := [];
+     k_scripts := []; k_handles := []; k_occ := []; k_armed := []; k_dequeued := None; k_slot_credit := []; k_pollno := 0;
+     k_last_waker := None; k_last_pending := false; k_twake_since := false;
+     k_max_held := 0; k_wakes := 0; k_stale_wakes := 0; k_nblocks := 0; k_polls_total := 0; k_items_total := 0;
+     k_allocs_after := 0; k_quiet_run := 0;
+     k_op_polls := 0; k_op_finals := 0; k_op_pulled := 0; k_op_twakes := 0; k_op_wakes := 0;
+     k_op_newly_armed := false; k_op_all_pending := true;
      k_op_up_last_pend := false; k_op_up_polled := false; k_pending_item := None; k_pending_err := None |}.
 
-(** record-update helpers (only the fields that change are named) *)
-Definition k_upd (k : trk)
-  (acc run : list N) (fin : list (N * res)) (held deq : list N) (yl pr : list tok) : trk :=
-  {| k_type := k_type k; k_par := k_par k; k_inits := k_inits k; k_built := k_built k; k_dropped := k_dropped k;
-     k_accepted := acc; k_running := run; k_final := fin; k_held := held; k_deque := deq;
-     k_yielded := yl; k_produced := pr; k_cdrops := k_cdrops k; k_odrops := k_odrops k; k_refused := k_refused k;
-     k_pulled := k_pulled k; k_up_ended := k_up_ended k; k_up_after_end := k_up_after_end k;
-     k_op_polls := k_op_polls k; k_op_finals := k_op_finals k; k_op_pulled := k_op_pulled k;
-     k_op_twakes := k_op_twakes k; k_op_crate_twakes := k_op_crate_twakes k;
-     k_op_up_last_pend := k_op_up_last_pend k; k_op_up_polled := k_op_up_polled k;
-     k_pending_item := k_pending_item k; k_pending_err := k_pending_err k |}.
+(** *** replay of waker actions *)
+Definition occupant (k : trk) (b s : nat) : option N :=
+  match find (fun e => Nat.eqb (fst (fst e)) b && Nat.eqb (snd (fst e)) s) (k_occ k) with
+  | Some e => Some (snd e)
+  | None => None
+  end.
 
-Definition k_upd_drops (k : trk) (cd : list N) (od : list tok) (rf : list N) : trk :=
-  {| k_type := k_type k; k_par := k_par k; k_inits := k_inits k; k_built := k_built k; k_dropped := k_dropped k;
-     k_accepted := k_accepted k; k_running := k_running k; k_final := k_final k; k_held := k_held k; k_deque := k_deque k;
-     k_yielded := k_yielded k; k_produced := k_produced k; k_cdrops := cd; k_odrops := od; k_refused := rf;
-     k_pulled := k_pulled k; k_up_ended := k_up_ended k; k_up_after_end := k_up_after_end k;
-     k_op_polls := k_op_polls k; k_op_finals := k_op_finals k; k_op_pulled := k_op_pulled k;
-     k_op_twakes := k_op_twakes k; k_op_crate_twakes := k_op_crate_twakes k;
-     k_op_up_last_pend := k_op_up_last_pend k; k_op_up_polled := k_op_up_polled k;
-     k_pending_item := k_pending_item k; k_pending_err := k_pending_err k |}.
+Definition is_armed (k : trk) (c : N) : bool :=
+  match lookupN c (k_armed k) with Some _ => true | None => false end.
 
-Definition k_upd_up (k : trk) (pulled : nat) (ended after : bool) (op_pulled : nat) (lastpend polled : bool) : trk :=
-  {| k_type := k_type k; k_par := k_par k; k_inits := k_inits k; k_built := k_built k; k_dropped := k_dropped k;
-     k_accepted := k_accepted k; k_running := k_running k; k_final := k_final k; k_held := k_held k; k_deque := k_deque k;
-     k_yielded := k_yielded k; k_produced := k_produced k; k_cdrops := k_cdrops k; k_odrops := k_odrops k; k_refused := k_refused k;
-     k_pulled := pulled; k_up_ended := ended; k_up_after_end := after;
-     k_op_polls := k_op_polls k; k_op_finals := k_op_finals k; k_op_pulled := op_pulled;
-     k_op_twakes := k_op_twakes k; k_op_crate_twakes := k_op_crate_twakes k;
-     k_op_up_last_pend := lastpend; k_op_up_polled := polled;
-     k_pending_item := k_pending_item k; k_pending_err := k_pending_err k |}.
+Definition arm_child (k : trk) (c : N) : trk :=
+  if is_armed k c then k else k <| k_armed ::= cons (c, k_pollno k) |>.
 
-Definition k_upd_op (k : trk) (polls finals tw ctw : nat) (pi pe : option tok) : trk :=
-  {| k_type := k_type k; k_par := k_par k; k_inits := k_inits k; k_built := k_built k; k_dropped := k_dropped k;
-     k_accepted := k_accepted k; k_running := k_running k; k_final := k_final k; k_held := k_held k; k_deque := k_deque k;
-     k_yielded := k_yielded k; k_produced := k_produced k; k_cdrops := k_cdrops k; k_odrops := k_odrops k; k_refused := k_refused k;
-     k_pulled := k_pulled k; k_up_ended := k_up_ended k; k_up_after_end := k_up_after_end k;
-     k_op_polls := polls; k_op_finals := finals; k_op_pulled := k_op_pulled k;
-     k_op_twakes := tw; k_op_crate_twakes := ctw;
-     k_op_up_last_pend := k_op_up_last_pend k; k_op_up_polled := k_op_up_polled k;
-     k_pending_item := pi; k_pending_err := pe |}.
+(** a waker of slot (b, s) is invoked *)
+Definition wake_slot_m (k : trk) (b s : nat) : trk :=
+  let k := k <| k_wakes ::= S |> <| k_op_wakes ::= S |> in
+  match occupant k b s with
+  | Some c =>
+      if is_armed k c then k
+      else (arm_child k c) <| k_op_newly_armed := true |>
+  | None => k <| k_stale_wakes ::= S |>
+              <| k_slot_credit ::= fun l => if existsb (fun e => Nat.eqb (fst e) b && Nat.eqb (snd e) s) l then l else (b, s) :: l |>
+  end.
 
-Definition k_set_flags (k : trk) (t : ctype) (p : cparams) (ini : list N) (built dropped : bool) : trk :=
-  {| k_type := t; k_par := p; k_inits := ini; k_built := built; k_dropped := dropped;
-     k_accepted := k_accepted k; k_running := k_running k; k_final := k_final k; k_held := k_held k; k_deque := k_deque k;
-     k_yielded := k_yielded k; k_produced := k_produced k; k_cdrops := k_cdrops k; k_odrops := k_odrops k; k_refused := k_refused k;
-     k_pulled := k_pulled k; k_up_ended := k_up_ended k; k_up_after_end := k_up_after_end k;
-     k_op_polls := k_op_polls k; k_op_finals := k_op_finals k; k_op_pulled := k_op_pulled k;
-     k_op_twakes := k_op_twakes k; k_op_crate_twakes := k_op_crate_twakes k;
-     k_op_up_last_pend := k_op_up_last_pend k; k_op_up_polled := k_op_up_polled k;
-     k_pending_item := k_pending_item k; k_pending_err := k_pending_err k |}.
+Definition get_mhandle (k : trk) (h : nat) : option mhandle :=
+  match nth_error (k_handles k) h with Some (Some x) => Some x | _ => None end.
 
-Definition accept (k : trk) (c : N) (front : bool) : trk :=
-  k_upd k (k_accepted k ++ [c]) (k_running k ++ [c]) (k_final k) (k_held k ++ [c])
-        (if front then c :: k_deque k else k_deque k ++ [c]) (k_yielded k) (k_produced k).
+Definition wake_mhandle (k : trk) (x : mhandle) : trk :=
+  match x with MT _ => k <| k_op_wakes ::= S |> | MC b s => wake_slot_m k b s end.
+
+Definition perform (cw : option mhandle) (k : trk) (a : act) : trk :=
+  match a with
+  | ASelf => match cw with Some x => wake_mhandle k x | None => k end
+  | ACloneSelf => match cw with Some x => k <| k_handles ::= fun l => l ++ [Some x] |> | None => k end
+  | AWakeRef h => match get_mhandle k h with Some x => wake_mhandle k x | None => k end
+  | AWake h => match get_mhandle k h with
+               | Some x => wake_mhandle (k <| k_handles ::= fun l => upd l h None |>) x
+               | None => k end
+  | ADrop h => match get_mhandle k h with
+               | Some _ => k <| k_handles ::= fun l => upd l h None |>
+               | None => k end
+  | AClone h => match get_mhandle k h with
+                | Some x => k <| k_handles ::= fun l => l ++ [Some x] |>
+                | None => k end
+  end.
+
+Definition perform_all (cw : option mhandle) (k : trk) (l : list act) : trk :=
+  fold_left (perform cw) l k.
+
+Definition accept (k : trk) (c : N) (s : script) (front : bool) : trk :=
+  let k := k <| k_accepted ::= fun l => l ++ [c] |> <| k_running ::= fun l => l ++ [c] |>
+             <| k_held ::= fun l => l ++ [c] |>
+             <| k_deque ::= fun l => if front then c :: l else l ++ [c] |>
+             <| k_scripts ::= cons (c, s) |> in
+  let k := arm_child k c in
+  k <| k_max_held := Nat.max (k_max_held k) (length (k_held k)) |>.
+
+Definition op_has_inc (o : op) : bool :=
+  match o with OPoll _ i => negb (Nat.eqb (length (inj_inc i)) 0) | _ => false end.
+Definition op_has_inj (o : op) : bool :=
+  match o with OPoll _ i => negb (Nat.eqb (length (inj_inc i)) 0) || negb (Nat.eqb (length (inj_pts i)) 0) | _ => false end.
 
 (** start of an op *)
 Definition trk_begin (k : trk) (o : op) : trk :=
-  let k := k_upd_op k 0 0 0 0 None None in
-  let k := k_upd_up k (k_pulled k) (k_up_ended k) (k_up_after_end k) 0 false false in
+  let k := k <| k_op_polls := 0 |> <| k_op_finals := 0 |> <| k_op_pulled := 0 |> <| k_op_twakes := 0 |>
+             <| k_op_wakes := 0 |> <| k_op_newly_armed := false |> <| k_op_all_pending := true |>
+             <| k_op_up_last_pend := false |> <| k_op_up_polled := false |>
+             <| k_pending_item := None |> <| k_pending_err := None |> <| k_dequeued := None |> in
   match o with
-  | OBuild t p inits _ =>
-      let k := k_set_flags k t p (map fst inits) true false in
+  | OBuild t p inits ups =>
+      let k := k <| k_type := t |> <| k_par := p |> <| k_inits := map fst inits |> <| k_built := true |>
+                 <| k_ups := ups |> in
       let with_inits := match t with
                         | TMB | TJA | TTJA => true
                         | TFUB | TFU | TMU | TFOB | TFO => p_iter p
                         | _ => false end in
-      if with_inits then fold_left (fun k c => accept k c false) (map fst inits) k else k
-  | ODropColl => k_set_flags k (k_type k) (k_par k) (k_inits k) (k_built k) true
+      if with_inits then fold_left (fun k cs => accept k (fst cs) (snd cs) false) inits k else k
+  | ODropColl => k <| k_dropped := true |>
+  | OPoll w _ => k <| k_last_waker := Some w |> <| k_twake_since := false |> <| k_last_pending := false |>
+  | OEnv a => perform None k a
+  | OCleanup => k <| k_handles ::= map (fun _ => None) |>
   | _ => k
   end.
 
 Definition final_of (k : trk) (c : N) : option res :=
   match find (fun p => N.eqb (fst p) c) (k_final k) with Some p => Some (snd p) | None => None end.
 
+Definition inj_of (o : op) (p : ipoint) (n : nat) : list act :=
+  match o with OPoll _ i => find_inj p n (inj_pts i) | _ => [] end.
+
+Definition poll_waker (o : op) : option mhandle :=
+  match o with OPoll w _ => Some (MT w) | _ => None end.
+
+Definition is_final_res (r : res) : bool := match r with RR | RX | RE => true | _ => false end.
+
 (** the effect of one event on the tracker; [o] is the op it belongs to *)
 Definition trk_event (k : trk) (o : op) (e : event) : trk :=
   match e with
-  | ECPoll _ _ _ _ => k_upd_op k (S (k_op_polls k)) (k_op_finals k) (k_op_twakes k) (k_op_crate_twakes k) (k_pending_item k) (k_pending_err k)
+  | EBlkAlloc _ _ => k <| k_nblocks ::= S |>
+  | ECPoll c b s _ =>
+      let deq := match k_dequeued k with Some c' => N.eqb c c' | None => false end in
+      let k := k <| k_op_polls ::= S |> <| k_polls_total ::= S |>
+                 <| k_occ ::= fun l => (b, s, c) :: filter (fun e => negb (Nat.eqb (fst (fst e)) b && Nat.eqb (snd (fst e)) s)) l |> in
+      let k := if deq then k <| k_dequeued := None |>
+               else if is_armed k c then k <| k_armed ::= dropN c |>
+               else k <| k_slot_credit ::= filter (fun e => negb (Nat.eqb (fst e) b && Nat.eqb (snd e) s)) |> in
+      match final_of k c, lookupN c (k_scripts k) with
+      | None, Some ((acts, _) :: rest) =>
+          perform_all (Some (MC b s)) (k <| k_scripts ::= fun l => (c, rest) :: dropN c l |>) acts
+      | _, _ => k
+      end
   | ECAns c r =>
       match r with
       | RP => k
       | RI =>
-          let t := TItem c (countT (TItem c 0) (map (fun t => match t with TItem c' _ => TItem c' 0 | x => x end) (k_produced k))) in
-          let k := k_upd k (k_accepted k) (k_running k) (k_final k) (k_held k) (k_deque k) (k_yielded k) (k_produced k ++ [t]) in
-          k_upd_op k (k_op_polls k) (k_op_finals k) (k_op_twakes k) (k_op_crate_twakes k) (Some t) (k_pending_err k)
+          let n := length (filter (fun t => match t with TItem c' _ => N.eqb c c' | _ => false end) (k_produced k)) in
+          let t := TItem c n in
+          (arm_child k c) <| k_produced ::= fun l => l ++ [t] |> <| k_pending_item := Some t |>
+                          <| k_items_total ::= S |> <| k_op_all_pending := false |>
       | _ =>
           let prod := match r with
-                      | RR => if match k_type k with TFEC => true | _ => false end then [] else [TOut c]
+                      | RR => if is_fec (k_type k) then [] else [TOut c]
                       | RX => [TErr c]
                       | _ => [] end in
-          let merge := is_merge (k_type k) in
-          let k := k_upd k (k_accepted k) (removeN c (k_running k)) (k_final k ++ [(c, r)])
-                         (if merge || match k_type k with TFEC => true | _ => false end then removeN c (k_held k) else k_held k)
-                         (k_deque k) (k_yielded k) (k_produced k ++ prod) in
-          k_upd_op k (k_op_polls k) (S (k_op_finals k)) (k_op_twakes k) (k_op_crate_twakes k) (k_pending_item k) (k_pending_err k)
+          k <| k_running ::= removeN c |> <| k_final ::= fun l => l ++ [(c, r)] |>
+            <| k_held ::= fun l => if is_merge (k_type k) || is_fec (k_type k) then removeN c l else l |>
+            <| k_produced ::= fun l => l ++ prod |> <| k_op_finals ::= S |> <| k_op_all_pending := false |>
+            <| k_fin_undropped ::= cons c |> <| k_armed ::= dropN c |>
+            <| k_occ ::= filter (fun e => negb (N.eqb (snd e) c)) |>
       end
-  | ECDrop c _ => k_upd_drops k (k_cdrops k ++ [c]) (k_odrops k) (k_refused k)
-  | EODrop t _ => k_upd_drops k (k_cdrops k) (k_odrops k ++ [t]) (k_refused k)
-  | ERefused c => k_upd_drops k (k_cdrops k) (k_odrops k) (k_refused k ++ [c])
-  | ETWake _ cz =>
-      k_upd_op k (k_op_polls k) (k_op_finals k) (S (k_op_twakes k))
-               (match cz with CCrate => S (k_op_crate_twakes k) | CChild => k_op_crate_twakes k end)
-               (k_pending_item k) (k_pending_err k)
+  | ECDrop c _ =>
+      k <| k_cdrops ::= fun l => l ++ [c] |> <| k_occ ::= filter (fun e => negb (N.eqb (snd e) c)) |>
+        <| k_fin_undropped ::= removeN c |>
+        <| k_armed ::= dropN c |> <| k_scripts ::= dropN c |>
+  | EODrop t _ => k <| k_odrops ::= fun l => l ++ [t] |>
+  | ERefused c => k <| k_refused ::= fun l => l ++ [c] |>
+  | ETWake w _ =>
+      k <| k_op_twakes ::= S |>
+        <| k_twake_since := k_twake_since k || match k_last_waker k with Some w' => Nat.eqb w w' | None => false end |>
+  | EInj p n sl =>
+      (* a pop that returned a slot has cleared its queued flag: a wake injected at its exit re-arms it *)
+      let k := match p, sl with
+               | IExit, Some (b, s) =>
+                   match occupant k b s with
+                   | Some c => k <| k_armed ::= dropN c |> <| k_dequeued := Some c |>
+                   | None => k
+                   end
+               | _, _ => k
+               end in
+      perform_all None k (inj_of o p n)
+  | EAlloc n => match o with OBuild _ _ _ _ => k | _ => k <| k_allocs_after ::= Nat.add n |> end
   | EUpPoll a =>
+      let k := k <| k_op_up_polled := true |> <| k_op_up_last_pend := false |> in
+      let rest := match k_ups k with [] => [] | _ :: t => t end in
       match a with
       | UAItem c =>
-          let k := accept k c false in
-          k_upd_up k (S (k_pulled k)) (k_up_ended k) (k_up_after_end k) (S (k_op_pulled k)) false true
-      | UAPend => k_upd_up k (k_pulled k) (k_up_ended k) (k_up_after_end k) (k_op_pulled k) true true
-      | UAEnd => k_upd_up k (k_pulled k) true (k_up_after_end k) (k_op_pulled k) false true
-      | UAErr t =>
-          let k := k_upd k (k_accepted k) (k_running k) (k_final k) (k_held k) (k_deque k) (k_yielded k) (k_produced k ++ [t]) in
-          let k := k_upd_op k (k_op_polls k) (k_op_finals k) (k_op_twakes k) (k_op_crate_twakes k) (k_pending_item k) (Some t) in
-          k_upd_up k (k_pulled k) (k_up_ended k) (k_up_after_end k) (k_op_pulled k) false true
-      | UAAfterEnd => k_upd_up k (k_pulled k) (k_up_ended k) true (k_op_pulled k) false true
+          let s := match k_ups k with UItem s :: _ => s | _ => [] end in
+          (accept k c s false) <| k_pulled ::= S |> <| k_op_pulled ::= S |> <| k_ups := rest |> <| k_op_all_pending := false |>
+      | UAPend =>
+          let acts := match k_ups k with UPend a :: _ => a | _ => [] end in
+          perform_all (poll_waker o) (k <| k_op_up_last_pend := true |> <| k_ups := rest |>) acts
+      | UAEnd => k <| k_up_ended := true |> <| k_ups := rest |> <| k_op_all_pending := false |>
+      | UAErr t => k <| k_produced ::= fun l => l ++ [t] |> <| k_pending_err := Some t |> <| k_ups := rest |>
+                     <| k_op_all_pending := false |>
+      | UAAfterEnd => k
       end
   | ERet r =>
       let k :=
         match o, r with
-        | OPush c _, RetOk | OTryPush c _, RetOk => accept k c false
-        | OPushF c _, RetOk | OTryPushF c _, RetOk => accept k c true
+        | OPush c s, RetOk | OTryPush c s, RetOk => accept k c s false
+        | OPushF c s, RetOk | OTryPushF c s, RetOk => accept k c s true
         | _, _ => k
         end in
       let toks := match r with
@@ -228,14 +325,21 @@ Definition trk_event (k : trk) (o : op) (e : event) : trk :=
                   | RetReady l | RetOkv l => l
                   | _ => [] end in
       let cs := flat_map (fun t => match t with TOut c | TErr c => [c] | _ => [] end) toks in
-      let held := fold_left (fun h c => removeN c h) cs (k_held k) in
-      let deq := fold_left (fun h c => removeN c h) cs (k_deque k) in
-      let k := k_upd k (k_accepted k) (k_running k) (k_final k) held deq (k_yielded k ++ toks) (k_produced k) in
-      k_upd_op k (k_op_polls k) (k_op_finals k) (k_op_twakes k) (k_op_crate_twakes k) None None
+      let k := k <| k_held ::= fun h => fold_left (fun h c => removeN c h) cs h |>
+                 <| k_deque ::= fun h => fold_left (fun h c => removeN c h) cs h |>
+                 <| k_yielded ::= fun l => l ++ toks |>
+                 <| k_pending_item := None |> <| k_pending_err := None |> in
+      match o with
+      | OPoll _ _ =>
+          let pend := match r with RetPending => true | _ => false end in
+          let progress := negb (op_has_inc o) && (pend || negb (Nat.eqb (k_op_polls k) 0)) in
+          k <| k_last_pending := pend |> <| k_pollno ::= fun n => if progress then S n else n |>
+      | _ => k
+      end
   | _ => k
   end.
 
-(** generic fold: [chk k o e] is evaluated with the tracker state *before* the event;
+(** generic fold: [chk k o e] sees the tracker state *before* the event;
     [chk_end k o evs] after the last event of each op; [chk_fin k] at the end of the trace *)
 Section Fold.
 Variable chk : trk -> op -> event -> bool.
@@ -250,13 +354,26 @@ Fixpoint mon_events (k : trk) (o : op) (evs : list event) : bool * trk :=
       else (false, k)
   end.
 
+Definition is_quiet_poll (k : trk) (o : op) (evs : list event) : bool :=
+  match o with
+  | OPoll _ _ => negb (op_has_inj o) && Nat.eqb (k_op_wakes k) 0 && k_op_all_pending k
+                 && existsb (fun e => match e with ERet RetPending => true | _ => false end) evs
+  | _ => false
+  end.
+
+Definition trk_end (k : trk) (o : op) (evs : list event) : trk :=
+  match o with
+  | OObs | OMove => k
+  | _ => if is_quiet_poll k o evs then k <| k_quiet_run ::= S |> else k <| k_quiet_run := 0 |>
+  end.
+
 Fixpoint mon_trace (k : trk) (t : trace) : bool :=
   match t with
   | [] => chk_fin k
   | (o, evs) :: rest =>
       let k := trk_begin k o in
       let '(ok, k) := mon_events k o evs in
-      ok && chk_end k o evs && mon_trace k rest
+      ok && chk_end k o evs && mon_trace (trk_end k o evs) rest
   end.
 End Fold.
 
@@ -266,11 +383,7 @@ Definition no_fin (k : trk) := true.
 
 Definition has_ret (r : retv -> bool) (evs : list event) : bool :=
   existsb (fun e => match e with ERet x => r x | _ => false end) evs.
-Definition is_ret_panic (r : retv) := match r with RetPanic => true | _ => false end.
-Definition is_ret_ok (r : retv) := match r with RetOk => true | _ => false end.
-Definition is_ret_refused (r : retv) := match r with RetRefused => true | _ => false end.
 Definition is_ret_pending (r : retv) := match r with RetPending => true | _ => false end.
-Definition is_ret_none (r : retv) := match r with RetNone => true | _ => false end.
 
 (** capacity of the bounded collections as seen from the history *)
 Definition bound_of (k : trk) : option nat :=
@@ -279,6 +392,27 @@ Definition bound_of (k : trk) : option nat :=
   | TMB => Some (length (k_inits k))
   | _ => None
   end.
+
+Definition model_only_bad (e : event) : bool :=
+  match e with EStuck | EOutOfFuel | EVtBad => true | _ => false end.
+
+(** ** C01: no lost wake-ups (sequential clauses i and ii, incl. the hook-point windows) *)
+(** [k_armed] only ever holds running children (a final answer disarms) *)
+Definition held_armed (k : trk) : bool := negb (Nat.eqb (length (k_armed k)) 0).
+
+Definition chk_C01_ev (k : trk) (o : op) (e : event) : bool :=
+  match e, o with
+  | ERet RetPending, OPoll _ _ =>
+      (* a child needing a poll is left un-polled only if this poll's task waker was invoked *)
+      if held_armed k then k_twake_since k else true
+  | _, _ => negb (model_only_bad e)
+  end.
+Definition chk_C01_end (k : trk) (o : op) (evs : list event) : bool :=
+  match o with
+  | OEnv _ => if k_op_newly_armed k && k_last_pending k && negb (k_dropped k) then k_twake_since k else true
+  | _ => true
+  end.
+Definition chk_C01 (t : trace) : bool := mon_trace chk_C01_ev chk_C01_end no_fin trk_init t.
 
 (** ** C02: every accepted future yielded exactly once; None iff empty *)
 Definition chk_C02_ev (k : trk) (o : op) (e : event) : bool :=
@@ -290,52 +424,14 @@ Definition chk_C02_ev (k : trk) (o : op) (e : event) : bool :=
   | ERet (RetItem _) => false
   | ERet RetNone => Nat.eqb (length (k_held k)) 0
   | ERet RetPending => negb (Nat.eqb (length (k_held k)) 0)
-  | EStuck | EOutOfFuel => false
-  | _ => true
+  | _ => negb (model_only_bad e)
   end.
 Definition chk_C02 (t : trace) : bool := mon_trace chk_C02_ev no_end no_fin trk_init t.
 
-(** ** C15: capacity and observer contract *)
-Definition opt_eqb {A} (eqb : A -> A -> bool) (a : option A) (b : A) : bool :=
-  match a with Some x => eqb x b | None => true end.
-
-Definition chk_C15_ev (k : trk) (o : op) (e : event) : bool :=
-  let t := k_type k in
-  let nrun := length (k_running k) in
-  let full := match bound_of k with Some n => Nat.leb n nrun | None => false end in
-  match e with
-  | ERet RetPanic =>
-      match o with
-      | OBuild _ _ _ _ => false                  (* constructors succeed for every capacity *)
-      | OPush _ _ | OPushF _ _ => full           (* push panics only when full *)
-      | _ => true
-      end
-  | ERet RetOk =>
-      match o with
-      | OPush _ _ | OPushF _ _ | OTryPush _ _ | OTryPushF _ _ => negb full
-      | _ => true
-      end
-  | ERefused c =>
-      match o with
-      | OTryPush c' _ | OTryPushF c' _ => full && N.eqb c c'
-      | _ => false
-      end
-  | EObs ob =>
-      if is_adapter t || is_join t then true else
-      let n := if is_merge t then nrun else length (k_held k) in
-      opt_eqb Nat.eqb (ob_len ob) n
-      && opt_eqb Bool.eqb (ob_empty ob) (Nat.eqb n 0)
-      && opt_eqb Bool.eqb (ob_term ob) (Nat.eqb n 0)
-      && (if is_merge t then true
-          else opt_eqb (fun a b => Nat.eqb (fst a) (fst b) && match snd a with Some h => Nat.eqb h (fst b) | None => false end)
-                       (ob_hint ob) (n, Some n))
-      && match t, bound_of k with
-         | TFUB, Some c => opt_eqb Nat.eqb (ob_cap ob) c && Nat.leb nrun c
-         | _, _ => true
-         end
-  | _ => true
-  end.
-Definition chk_C15 (t : trace) : bool := mon_trace chk_C15_ev no_end no_fin trk_init t.
+(** ** C03 (trace side): no vtable access to a released block, no leak of a block *)
+Definition chk_C03_ev (k : trk) (o : op) (e : event) : bool :=
+  match e with EVtBad => false | _ => true end.
+Definition chk_C03 (t : trace) : bool := mon_trace chk_C03_ev no_end no_fin trk_init t.
 
 (** ** C04: ordered types yield in queue order; join results are in input order *)
 Definition chk_C04_ev (k : trk) (o : op) (e : event) : bool :=
@@ -359,15 +455,13 @@ Definition chk_C04 (t : trace) : bool := mon_trace chk_C04_ev no_end no_fin trk_
 Definition chk_C05_ev (k : trk) (o : op) (e : event) : bool :=
   match e with
   | ECPoll c _ _ _ => match final_of k c with Some _ => false | None => true end
-  | ERet _ =>
-      (* every child that has finished must have been dropped by now *)
-      forallb (fun p => memN (fst p) (k_cdrops k)) (k_final k)
+  | ERet _ => Nat.eqb (length (k_fin_undropped k)) 0
   | _ => true
   end.
 Definition chk_C05 (t : trace) : bool := mon_trace chk_C05_ev no_end no_fin trk_init t.
 
-(** ** C06: everything dropped exactly once, nothing leaks (evaluated on complete histories:
-       ending with dropcoll and cleanup) *)
+(** ** C06: everything dropped exactly once, nothing leaks (complete histories end with
+       dropcoll and cleanup) *)
 Definition chk_C06_ev (k : trk) (o : op) (e : event) : bool :=
   match e with
   | ECDrop c _ => negb (memN c (k_cdrops k))
@@ -393,8 +487,8 @@ Definition chk_C07_ev (k : trk) (o : op) (e : event) : bool :=
   match e with
   | ERet (RetReady l) | ERet (RetOkv l) =>
       match l with
-      | [] => (* nothing handed out: fine if there are no inputs, or after the first Ready *)
-          Nat.eqb (length (k_inits k)) 0 || negb (Nat.eqb (length (k_yielded k)) 0) || match first_err with Some _ => true | None => false end
+      | [] => Nat.eqb (length (k_inits k)) 0 || negb (Nat.eqb (length (k_yielded k)) 0)
+              || match first_err with Some _ => true | None => false end
       | _ => all_ok
              && forallb (fun t => memT t (k_produced k) && negb (memT t (k_yielded k))) l
              && Nat.eqb (length l) (length (k_inits k))
@@ -404,19 +498,12 @@ Definition chk_C07_ev (k : trk) (o : op) (e : event) : bool :=
       | Some c, TErr c' => N.eqb c c' && negb (memT t (k_yielded k))
       | _, _ => false
       end
-  | EStuck | EOutOfFuel => false
-  | _ => true
+  | _ => negb (model_only_bad e)
   end.
 Definition chk_C07 (t : trace) : bool := mon_trace chk_C07_ev no_end no_fin trk_init t.
 
 (** ** C08: pinned children never move *)
 Definition addr_eqb (a b : addr) : bool := Nat.eqb (fst a) (fst b) && Nat.eqb (snd a) (snd b).
-
-Fixpoint lookupN {A} (c : N) (l : list (N * A)) : option A :=
-  match l with
-  | [] => None
-  | (c', v) :: t => if N.eqb c c' then Some v else lookupN c t
-  end.
 
 Fixpoint chk_C08_evs (seen : list (N * addr)) (evs : list event) : bool * list (N * addr) :=
   match evs with
@@ -447,11 +534,10 @@ Definition chk_C09_ev (k : trk) (o : op) (e : event) : bool :=
   let n := p_cap (k_par k) in
   if Nat.eqb n 0 then true else
   match e with
-  | EUpPoll (UAItem _) => Nat.ltb (length (k_running k)) n      (* pulling one more keeps running <= n *)
+  | EUpPoll (UAItem _) => Nat.ltb (length (k_running k)) n
   | ERet RetPending =>
       Nat.leb n (length (k_held k)) || k_up_ended k || k_op_up_last_pend k
-  | EStuck | EOutOfFuel => false
-  | _ => true
+  | _ => negb (model_only_bad e)
   end.
 Definition chk_C09 (t : trace) : bool := mon_trace chk_C09_ev no_end no_fin trk_init t.
 
@@ -459,7 +545,7 @@ Definition chk_C09 (t : trace) : bool := mon_trace chk_C09_ev no_end no_fin trk_
 Definition chk_C10_ev (k : trk) (o : op) (e : event) : bool :=
   if negb (is_adapter (k_type k)) then true else
   let idle := k_up_ended k && Nat.eqb (length (k_held k)) 0 in
-  let defined := negb (Nat.eqb (p_cap (k_par k)) 0) || match k_type k with TFEC => true | _ => false end in
+  let defined := negb (Nat.eqb (p_cap (k_par k)) 0) || is_fec (k_type k) in
   match e with
   | EUpPoll UAAfterEnd => false
   | EUpPoll (UAItem c) => N.eqb c (N.of_nat (S (k_pulled k)))
@@ -476,8 +562,8 @@ Definition chk_C10_ev (k : trk) (o : op) (e : event) : bool :=
       end
   | _ => true
   end.
-(** a poll of an adapter whose upstream has items left and which has room must make progress:
-    with limit 0 documented as "no limit" (for_each_concurrent) the upstream must still be consumed *)
+(** limit 0 is documented as "no limit" for for_each_concurrent: a Pending poll must at
+    least have polled the upstream *)
 Definition chk_C10_end (k : trk) (o : op) (evs : list event) : bool :=
   match k_type k, o with
   | TFEC, OPoll _ _ =>
@@ -504,10 +590,118 @@ Definition chk_C11_ev (k : trk) (o : op) (e : event) : bool :=
           | _ => true
           end
       end
-  | EStuck | EOutOfFuel => false
-  | _ => true
+  | _ => negb (model_only_bad e)
   end.
 Definition chk_C11 (t : trace) : bool := mon_trace chk_C11_ev no_end no_fin trk_init t.
+
+(** ** C12: children are polled only on notification *)
+Definition chk_C12_ev (k : trk) (o : op) (e : event) : bool :=
+  match e with
+  | ECPoll c b s _ =>
+      is_armed k c
+      || match k_dequeued k with Some c' => N.eqb c c' | None => false end
+      || existsb (fun e => Nat.eqb (fst e) b && Nat.eqb (snd e) s) (k_slot_credit k)
+  | _ => true
+  end.
+(** summed form: child polls <= accepted pushes + child-waker invocations + merge items *)
+Definition chk_C12_fin (k : trk) : bool :=
+  Nat.leb (k_polls_total k) (length (k_accepted k) + k_wakes k + k_items_total k).
+Definition chk_C12 (t : trace) : bool := mon_trace chk_C12_ev no_end chk_C12_fin trk_init t.
+
+(** ** C13: bounded work per poll (a) and no starvation (b).  [B] is the calibrated budget. *)
+Section Budget.
+Variable B : nat.
+
+(** how many collection polls a woken child may have to wait: linear in the held population *)
+Definition starve_bound (k : trk) : nat :=
+  (k_max_held k + k_stale_wakes k + 2) * (if is_unbounded (k_type k) then S (k_nblocks k) else 1).
+
+Definition chk_C13_ev (k : trk) (o : op) (e : event) : bool :=
+  match e with
+  | ECPoll c _ _ _ =>
+      match lookupN c (k_armed k) with
+      | Some since => Nat.leb (k_pollno k - since) (starve_bound k)
+      | None => true
+      end
+  | _ => true
+  end.
+Definition chk_C13_end (k : trk) (o : op) (evs : list event) : bool :=
+  match o with
+  | OPoll _ _ =>
+      Nat.leb (k_op_polls k) (B * (1 + k_op_finals k + k_op_pulled k))
+      && (if has_ret is_ret_pending evs && Nat.leb B (k_op_polls k) && Nat.eqb (k_op_finals k + k_op_pulled k) 0
+          then negb (Nat.eqb (k_op_twakes k) 0) else true)
+      (* nobody held and woken is left waiting beyond the bound *)
+      && (let bound := starve_bound k in
+          let now := k_pollno k in
+          forallb (fun p => Nat.leb (now - snd p) bound) (k_armed k))
+  | _ => Nat.eqb (k_op_polls k) 0
+  end.
+Definition chk_C13 (t : trace) : bool := mon_trace chk_C13_ev chk_C13_end no_fin trk_init t.
+
+(** ** C14: no busy-spinning *)
+Definition chk_C14_ev (k : trk) (o : op) (e : event) : bool :=
+  match e, o with
+  | ETWake _ CCrate, OPoll _ _ => true
+  | ETWake _ CCrate, _ => false                 (* outside polls only through a child waker *)
+  | ETWake _ CChild, OPoll _ _ =>
+      (* inside a poll the task is notified only if some child waker was invoked in it *)
+      negb (Nat.eqb (k_op_wakes k) 0) || op_has_inj o
+      || existsb (fun s => match s with UPend (_ :: _) => true | _ => false end) (firstn 1 (k_ups k))
+      || k_op_up_polled k
+  | _, _ => true
+  end.
+(** after (held + 2) quiet polls in a row the task must not be woken any more *)
+Definition chk_C14_end (k : trk) (o : op) (evs : list event) : bool :=
+  if is_quiet_poll k o evs && Nat.leb (length (k_running k) + 1) (k_quiet_run k)
+  then Nat.eqb (k_op_twakes k) 0 else true.
+Definition chk_C14 (t : trace) : bool := mon_trace chk_C14_ev chk_C14_end no_fin trk_init t.
+
+(** the class of the open finding F9: at least [B] wake-ups of vacant slots *)
+Definition known_C14_fin (k : trk) : bool := Nat.leb B (k_stale_wakes k).
+End Budget.
+
+(** ** C15: capacity and observer contract *)
+Definition opt_eqb {A} (eqb : A -> A -> bool) (a : option A) (b : A) : bool :=
+  match a with Some x => eqb x b | None => true end.
+
+Definition chk_C15_ev (k : trk) (o : op) (e : event) : bool :=
+  let t := k_type k in
+  let nrun := length (k_running k) in
+  let full := match bound_of k with Some n => Nat.leb n nrun | None => false end in
+  match e with
+  | ERet RetPanic =>
+      match o with
+      | OBuild _ _ _ _ => false
+      | OPush _ _ | OPushF _ _ => full
+      | _ => true
+      end
+  | ERet RetOk =>
+      match o with
+      | OPush _ _ | OPushF _ _ | OTryPush _ _ | OTryPushF _ _ => negb full
+      | _ => true
+      end
+  | ERefused c =>
+      match o with
+      | OTryPush c' _ | OTryPushF c' _ => full && N.eqb c c'
+      | _ => false
+      end
+  | EObs ob =>
+      if is_adapter t || is_join t then true else
+      let n := if is_merge t then nrun else length (k_held k) in
+      opt_eqb Nat.eqb (ob_len ob) n
+      && opt_eqb Bool.eqb (ob_empty ob) (Nat.eqb n 0)
+      && opt_eqb Bool.eqb (ob_term ob) (Nat.eqb n 0)
+      && (if is_merge t then true
+          else opt_eqb (fun a b => Nat.eqb (fst a) (fst b) && match snd a with Some h => Nat.eqb h (fst b) | None => false end)
+                       (ob_hint ob) (n, Some n))
+      && match t, bound_of k with
+         | TFUB, Some c => opt_eqb Nat.eqb (ob_cap ob) c && Nat.leb nrun c
+         | _, _ => true
+         end
+  | _ => true
+  end.
+Definition chk_C15 (t : trace) : bool := mon_trace chk_C15_ev no_end no_fin trk_init t.
 
 (** ** C16: ordered buffering: at most n items pulled but not yielded *)
 Definition chk_C16_ev (k : trk) (o : op) (e : event) : bool :=
@@ -523,26 +717,93 @@ Definition chk_C16_ev (k : trk) (o : op) (e : event) : bool :=
   end.
 Definition chk_C16 (t : trace) : bool := mon_trace chk_C16_ev no_end no_fin trk_init t.
 
-(** ** C13 (a): bounded work per poll; a poll that stops on its budget has woken its task.
-       [B] is the calibrated budget. *)
-Section Budget.
-Variable B : nat.
-Definition chk_C13_end (k : trk) (o : op) (evs : list event) : bool :=
-  match o with
-  | OPoll _ _ =>
-      Nat.leb (k_op_polls k) (B * (1 + k_op_finals k + k_op_pulled k))
-      && (if has_ret is_ret_pending evs && Nat.leb B (k_op_polls k) && Nat.eqb (k_op_finals k + k_op_pulled k) 0
-          then negb (Nat.eqb (k_op_twakes k) 0) else true)
-  | _ => Nat.eqb (k_op_polls k) 0
-  end.
-Definition chk_C13a (t : trace) : bool := mon_trace no_chk chk_C13_end no_fin trk_init t.
-End Budget.
+(** ** C17: size_hint brackets what will still be yielded *)
+Definition up_remaining_m (k : trk) : nat :=
+  if k_up_ended k then 0 else
+  length (filter (fun s => match s with UItem _ => true | UErr => is_try (k_type k) | _ => false end) (k_ups k)).
 
-(** ** C14 (b): outside polls the task is only woken through a child waker *)
-Definition chk_C14_ev (k : trk) (o : op) (e : event) : bool :=
-  match e, o with
-  | ETWake _ CCrate, OPoll _ _ => true
-  | ETWake _ CCrate, _ => false
-  | _, _ => true
+Definition chk_C17_ev (k : trk) (o : op) (e : event) : bool :=
+  match e with
+  | EObs ob =>
+      match ob_hint ob with
+      | None => true
+      | Some (lo, hi) =>
+          let t := k_type k in
+          let remaining :=
+            if is_adapter t then up_remaining_m k + length (k_held k)
+            else if is_merge t then 0            (* merges report (0, None): lower bound only *)
+            else length (k_held k) in
+          Nat.leb lo remaining
+          && (if is_merge t then match hi with None => true | Some _ => true end
+              else match hi with Some h => Nat.leb remaining h | None => true end)
+      end
+  | _ => true
   end.
-Definition chk_C14b (t : trace) : bool := mon_trace chk_C14_ev no_end no_fin trk_init t.
+Definition chk_C17 (t : trace) : bool := mon_trace chk_C17_ev no_end no_fin trk_init t.
+
+(** ** C18: allocation discipline *)
+Definition no_alloc_type (t : ctype) : bool :=
+  match t with TFUB | TMB | TBU | TTBU | TFEC | TJA | TTJA => true | _ => false end.
+
+Fixpoint log2_up_nat (fuel n : nat) : nat :=
+  match fuel with
+  | O => 0
+  | S f => if Nat.leb n 1 then 0 else S (log2_up_nat f (Nat.div2 (S n)))
+  end.
+
+(** allocations after construction allowed for a peak population of [peak] children:
+    per group 2 (slots + waker block) + the Vec of groups and, for FuturesOrdered, the heap,
+    each growing by doubling *)
+Definition alloc_bound (peak : nat) : nat := 4 * (log2_up_nat (S peak) (S peak) + 3).
+
+Definition chk_C18_fin (k : trk) : bool :=
+  if no_alloc_type (k_type k) then Nat.eqb (k_allocs_after k) 0
+  else if is_unbounded (k_type k) then Nat.leb (k_allocs_after k) (alloc_bound (k_max_held k))
+  else true.
+Definition chk_C18 (t : trace) : bool := mon_trace no_chk no_end chk_C18_fin trk_init t.
+
+(** ** all monitors in one pass over the trace (same verdicts as the individual [chk_Cxx]) *)
+Record mon := { m_ev : trk -> op -> event -> bool; m_end : trk -> op -> list event -> bool; m_fin : trk -> bool }.
+
+Fixpoint all_events (ms : list mon) (oks : list bool) (k : trk) (o : op) (evs : list event) : list bool * trk :=
+  match evs with
+  | [] => (oks, k)
+  | e :: rest =>
+      let oks := map (fun p => snd p && m_ev (fst p) k o e) (combine ms oks) in
+      all_events ms oks (trk_event k o e) o rest
+  end.
+
+Fixpoint all_trace (ms : list mon) (oks : list bool) (k : trk) (t : trace) : list bool :=
+  match t with
+  | [] => map (fun p => snd p && m_fin (fst p) k) (combine ms oks)
+  | (o, evs) :: rest =>
+      let k := trk_begin k o in
+      let '(oks, k) := all_events ms oks k o evs in
+      let oks := map (fun p => snd p && m_end (fst p) k o evs) (combine ms oks) in
+      all_trace ms oks (trk_end k o evs) rest
+  end.
+
+Definition monitors (B : nat) : list mon :=
+  [ {| m_ev := chk_C01_ev; m_end := chk_C01_end; m_fin := no_fin |};
+    {| m_ev := chk_C02_ev; m_end := no_end; m_fin := no_fin |};
+    {| m_ev := chk_C03_ev; m_end := no_end; m_fin := no_fin |};
+    {| m_ev := chk_C04_ev; m_end := no_end; m_fin := no_fin |};
+    {| m_ev := chk_C05_ev; m_end := no_end; m_fin := no_fin |};
+    {| m_ev := chk_C06_ev; m_end := no_end; m_fin := chk_C06_fin |};
+    {| m_ev := chk_C07_ev; m_end := no_end; m_fin := no_fin |};
+    {| m_ev := no_chk; m_end := no_end; m_fin := no_fin |};           (* C08 has its own fold *)
+    {| m_ev := chk_C09_ev; m_end := no_end; m_fin := no_fin |};
+    {| m_ev := chk_C10_ev; m_end := chk_C10_end; m_fin := no_fin |};
+    {| m_ev := chk_C11_ev; m_end := no_end; m_fin := no_fin |};
+    {| m_ev := chk_C12_ev; m_end := no_end; m_fin := chk_C12_fin |};
+    {| m_ev := chk_C13_ev; m_end := chk_C13_end B; m_fin := no_fin |};
+    {| m_ev := chk_C14_ev; m_end := chk_C14_end; m_fin := no_fin |};
+    {| m_ev := chk_C15_ev; m_end := no_end; m_fin := no_fin |};
+    {| m_ev := chk_C16_ev; m_end := no_end; m_fin := no_fin |};
+    {| m_ev := chk_C17_ev; m_end := no_end; m_fin := no_fin |};
+    {| m_ev := no_chk; m_end := no_end; m_fin := chk_C18_fin |};
+    {| m_ev := no_chk; m_end := no_end; m_fin := known_C14_fin B |} ].
+
+Definition chk_all (B : nat) (t : trace) : list bool :=
+  let r := all_trace (monitors B) (map (fun _ => true) (monitors B)) trk_init t in
+  upd r 7 (chk_C08 t).
